@@ -240,7 +240,8 @@ Definition is_nil {A} (l : list A) : bool := match l with [] => true | _ => fals
 Definition is_empty (s : seg) : bool := is_nil s.
 Definition is_dot (s : seg) : bool := list_eqb s [46].
 Definition is_dotdot (s : seg) : bool := list_eqb s [46; 46].
-Definition normal_seg (s : seg) : bool := negb (is_empty s) && negb (is_dot s) && negb (is_dotdot s).
+(* an ordinary name: not "", ".", ".." and without NUL *)
+Definition normal_seg (s : seg) : bool := negb (is_empty s) && negb (is_dot s) && negb (is_dotdot s) && negb (memN 0 s).
 
 (* str.split(sep) *)
 Fixpoint split_on (sep : N) (s : str) : list seg :=
@@ -545,6 +546,18 @@ Definition children (f : fs) (p : path) : list seg :=
                      | [] => []
                      end) f.
 
+(* the loop of fix 6ac5763: probe = root; for part in parts: probe /= part; probe.is_symlink()
+   (os.lstat; any OSError or ValueError counts as "not a link") *)
+Fixpoint no_link_below (f : fs) (probe : path) (parts : list seg) : bool :=
+  match parts with
+  | [] => true
+  | s :: r =>
+      match klstat f (probe ++ [s]) with
+      | KOk _ (NLink _) => false
+      | _ => no_link_below f (probe ++ [s]) r
+      end
+  end.
+
 (* StaticResource._handle + _resolve_path_to_response for match_info["filename"] = filename *)
 Definition handle (f : fs) (root : path) (follow show_index : bool) (accept : str) (filename : str) : sresp :=
   let '(isabs, segs) := parse_posix filename in
@@ -559,12 +572,9 @@ Definition handle (f : fs) (root : path) (follow show_index : bool) (accept : st
         match resolve f unresolved with
         | RP_ok p =>
             if path_prefix root p then
-              (* fix 706b3e0: `if file_path.resolve() != file_path: raise ValueError` — the second
-                 resolve() may itself raise (RuntimeError / ValueError -> 404) *)
-              match resolve f p with
-              | RP_ok p2 => if path_eqb p2 p then inl (RP_ok p) else inr tt
-              | r => inl r
-              end
+              (* fix 6ac5763: rel_path = file_path.relative_to(root); every root/part1/.../parti is
+                 lstat'ed (Path.is_symlink) and a symbolic link raises ValueError *)
+              if no_link_below f root (skipn (length root) p) then inl (RP_ok p) else inr tt
             else inr tt
         | r => inl r
         end in
